@@ -187,6 +187,24 @@ def pool(r, quick):
         p = r.randint(L // 2 + 2, L - 8) if len(doc["structure"]["genes"]) > 1 else r.randint(3, L - 8)
         w = r.randint(1, 3)
         doc["alleles"][f"{doc['name']}*77.001"] = {"mutations": [[p, f"del{seq[p - 1:p - 1 + w]}ins{''.join(r.choice('ACGT') for _ in range(r.randint(1, 3)))}", "-", "functional"]]}
+        # multi-base substitutions written non-minimally (first and / or last base unchanged: `AC>AT`, `CTT>TGT`) - the
+        # written spelling must denote the same haplotype on both strands
+        lo_ = L // 2 + 2 if len(doc["structure"]["genes"]) > 1 else 3
+        taken = {e[0] + k_ for a in doc["alleles"].values() for e in a["mutations"] if isinstance(e[0], int) for k_ in range(-4, 6)}
+        free = [q for q in range(lo_, L - 8) if all(q + k_ not in taken for k_ in range(0, 5))]
+        for j_, shape_ in enumerate(r.sample(["first", "last", "both"], 2)):
+            if not free:
+                break
+            q = r.choice(free)
+            free = [x for x in free if abs(x - q) > 8]
+            w = r.choice([2, 3, 4]) if shape_ != "both" else r.choice([3, 4])
+            ref = seq[q - 1:q - 1 + w]
+            alt = list(gen_gene.COMP[c] for c in ref)
+            if shape_ in ("first", "both"):
+                alt[0] = ref[0]
+            if shape_ in ("last", "both"):
+                alt[-1] = ref[-1]
+            doc["alleles"][f"{doc['name']}*{70 + j_}.001"] = {"mutations": [[q, f"{ref}>{''.join(alt)}", "-", "functional"]]}
         y = yaml.safe_dump(doc, sort_keys=False, default_flow_style=None)
         # multi-base variants at and next to the gaps of the RefSeq-to-genome alignment (either build, either strand):
         # the loader must refuse those that straddle a gap and keep those that merely lie beside it
